@@ -13,6 +13,7 @@ from vlib import coq
 from vlib.framework import Suite
 from . import shell_common as sc
 from . import C01
+from . import chan_common as cc
 
 PROP = "C09"
 TRUSTED = [
@@ -526,6 +527,132 @@ class SubshellE2E(Suite):
             yield {"ash": i % 2 == 1, "chunk": rng.choice([1, 4096, 4096]), "prog": prog}
 
 
+class SubshellSim(C01.InitSim):
+    """the reactive console of C01's init suite with a stack of shells: the spawn command starts an inner shell,
+    `exit` ends it and the outer shell prompts again"""
+
+    def __init__(self, cfg, rng, spawn):
+        super().__init__(cfg, rng)
+        self.spawn = spawn
+        self.stack = []
+
+    def react(self, line):
+        self.lines.append(line.hex())
+        n = len(self.lines)
+        d = self.cfg["delays"][n - 1] if n - 1 < len(self.cfg["delays"]) else 0
+        echo = C01.tty_echo_ref(line + b"\r", self.sh.echoctl)
+        if line == self.spawn:
+            self.stack.append(self.sh)
+            self.sh = C01.LinuxSim()
+            return self.frag(echo + self.sh.ps1, d)
+        if line == b"exit" and self.stack:
+            self.sh = self.stack.pop()
+            return self.frag(echo + b"exit\r\n" + self.sh.ps1, d)
+        echo, out, ps1 = self.sh.react(line)
+        return self.frag(echo + out + ps1, d)
+
+
+def _ires(fn):
+    try:
+        fn()
+        return [0]
+    except tbot.error.UncleanShellError:
+        return [1]
+    except TimeoutError:
+        return [2, 1]
+    except cc.Blocked:
+        return [2, 2]
+    except Exception as e:  # noqa
+        return [8, type(e).__name__, str(e)[:80]]
+
+
+class SubshellSimSuite(Suite):
+    """Bash.subshell() / Ash.subshell() over a reactive console against coq/Sh.v subshell_enter / subshell_leave"""
+    name = "subshell_sim"
+    imports = ["Channel", "Hush", "Session", "Sh"]
+    model_fn = "subshell_sim_model"
+    shard = 100
+
+    def run(self, case):
+        from . import C18
+        cfg = case["cfg"]
+        rng = random.Random(case["seed"])
+        clock = sc.VirtualClock()
+        spawn = b"ash" if cfg["ash"] else b"bash --norc --noprofile"
+        sim = SubshellSim(cfg, rng, spawn)
+        io_ = C18.RecIO(sim, clock)
+        r = [None, [], []]
+        inside = []
+        with sc.patched_clock(clock), sc.quiet_log():
+            try:
+                with C01.mk_machine(io_, cfg["ash"])() as m:
+                    r[0] = [0]
+                    cmgr = m.subshell()
+                    r[1] = _ires(cmgr.__enter__)
+                    if r[1] == [0]:
+                        r[2] = _ires(lambda: cmgr.__exit__(None, None, None))
+            except tbot.error.UncleanShellError:
+                r[0] = [1]
+            except TimeoutError:
+                r[0] = [2, 1]
+            except cc.Blocked:
+                r[0] = [2, 2]
+            except Exception as e:  # noqa
+                r[0] = r[0] or [8, type(e).__name__, str(e)[:80]]
+        stages = list(io_.stage_log)
+        case["_stages"] = [[[t, d.hex()] for t, d in st] for st in stages]
+        written = bytes(io_.written)
+        return [r[0], r[1], r[2], clock.t, written, io_.unread(), inside, [bytes.fromhex(h).decode("latin1") for h in sim.lines]]
+
+    def coq_input(self, case):
+        ash = case["cfg"]["ash"]
+        sts = [[[t, bytes.fromhex(d)] for t, d in st] for st in case["_stages"]]
+        cfg = coq.lst(lambda x: coq.nlist(x.encode()), C01.init_lines(ash), "(list N)")
+        spawn = b"ash" if ash else b"bash --norc --noprofile"
+        return f"({coq.nlist(C01.ASH_BL if ash else C01.BASH_BL)}, PS1_LINE, {cfg}, {coq.nlist(spawn)}, {sc.stages_coq(sts)})"
+
+    def obs_term(self, case, obs):
+        r0, r1, r2 = obs[0], obs[1], obs[2]
+
+        def ir(x):
+            return [1] if x == [1] else x
+        if r0 == [1] or r1 == [1]:
+            return "(VL [])"       # UncleanShellError carries the offending output in the model: compared by the init suite
+        return coq.V([r0, r1, r2, obs[3], obs[4], obs[5]])
+
+    def oracle(self, case, obs):
+        cfg = case["cfg"]
+        fails = []
+        fast = cfg["d0"] < 150 and all(d < 150 for d in cfg["delays"]) and cfg["gap"] <= 1
+        lines = obs[7]
+        if obs[1] == [0]:
+            if lines.count("exit") != 1:
+                fails.append(f"leaving the subshell sent `exit` {lines.count('exit')} times (the second one would leave the OUTER shell): lines {lines[-4:]}")
+        if fast and (obs[0], obs[1], obs[2]) != ([0], [0], [0]):
+            fails.append(f"the shells answer every line within 0.15 s but init / enter / leave gave {obs[0]!r} / {obs[1]!r} / {obs[2]!r}")
+        if (obs[0], obs[1], obs[2]) == ([0], [0], [0]) and obs[5]:
+            fails.append(f"console output left unread after the subshell was left: {obs[5]!r}")
+        return fails
+
+    def nontrivial(self, case, obs):
+        return obs[1] == [0]
+
+    def klass(self, case, obs):
+        return ("ash:" if case["cfg"]["ash"] else "bash:") + f"{obs[0][:1]}{obs[1][:1]}{obs[2][:1]}"
+
+    def finding_key(self, case, obs, failure):
+        return None
+
+    def gen(self, tier, rng):
+        for _ in range(250 if tier == "quick" else 1500):
+            slow = rng.random() < 0.4
+            yield {"cfg": {"ash": rng.random() < 0.5, "banner": rng.choice(["", "Welcome\r\n"]),
+                           "d0": rng.choice([0, 50]),
+                           "delays": [rng.choice([0, 0, 100, 250, 600, 3500, 5000]) if slow else rng.choice([0, 0, 100]) for _ in range(30)],
+                           "frag": rng.choice(["whole", "random", "bytes"]), "gap": rng.choice([0, 0, 1, 40]) if slow else rng.choice([0, 1])},
+                   "seed": rng.randrange(1 << 30)}
+
+
 class ReadonlyE2E(Suite):
     """a variable the shell refuses to change (made read-only earlier in the history, or owned by the shell): whatever
     env(var, value) RETURNS is what the variable holds afterwards -- for the shell and for its children; a refused
@@ -610,7 +737,7 @@ class ReadonlyE2E(Suite):
         yield {"ash": False, "sub": False, "chunk": 4096, "name": "UID", "old": None, "new": "12345"}       # bash owns UID (read-only)
 
 
-SUITES = [EchoSuite(), EnvSuite(), SubshellE2E(), ReadonlyE2E()]
+SUITES = [EchoSuite(), EnvSuite(), SubshellE2E(), SubshellSimSuite(), ReadonlyE2E()]
 
 
 def extra_obligations(tier):
